@@ -424,6 +424,22 @@ fn query_output_to_json_cols(result: QueryOutput) -> serde_json::Value {
     })
 }
 
+/// Registers the same handlers, state and payload limit as `run` on a service config, so that the
+/// handlers can be driven in-process (through actix's `Service`) without a socket.
+#[cfg(locustdb_verif)]
+pub fn verif_configure(cfg: &mut web::ServiceConfig, db: Arc<LocustDB>) {
+    cfg.app_data(Data::new(AppState { db }))
+        .app_data(Data::new(web::PayloadConfig::new(512 * 1024 * 1024)))
+        .service(echo)
+        .service(tables)
+        .service(query)
+        .service(table_handler)
+        .service(insert_bin)
+        .service(query_cols)
+        .service(multi_query_cols)
+        .service(columns);
+}
+
 pub fn run(
     db: Arc<LocustDB>,
     cors_allow_all: bool,
